@@ -161,6 +161,7 @@ func faultScript(rng *rand.Rand) tf.Script {
 		"feeds0": feeds, "svc0": svc, "live": false}
 	n := 60 + rng.Intn(80)
 	var steps []tf.M
+	down := false
 	for i := 0; i < n; i++ {
 		x := rng.Intn(100)
 		switch {
@@ -177,11 +178,20 @@ func faultScript(rng *rand.Rand) tf.Script {
 		case x < 55:
 			steps = append(steps, tf.M{"e": "Poll"})
 		case x < 70:
-			steps = append(steps, tf.M{"e": "Bcast", "id": 0, "r": []string{"ok", "ok", "ok", "err", "chk"}[rng.Intn(5)]})
+			steps = append(steps, tf.M{"e": "Bcast", "id": 0, "r": []string{"ok", "ok", "ok", "ok", "err", "chk", "oog"}[rng.Intn(7)]})
 		case x < 83:
 			steps = append(steps, tf.M{"e": "Block", "d": rng.Intn(5)})
-		case x < 96:
+		case x < 93:
 			steps = append(steps, tf.M{"e": "TxResult", "id": 0, "r": []string{"found", "found", "timeout"}[rng.Intn(3)]})
+		case x < 97:
+			// a local prerequisite of submitPrice breaks (feeder key deleted from the keyring, account query or gas
+			// simulation failing) or everything recovers
+			if down {
+				steps = append(steps, tf.M{"e": "Env", "down": []string{}})
+			} else {
+				steps = append(steps, tf.M{"e": "Env", "down": []string{[]string{"key", "key", "auth", "sim"}[rng.Intn(4)]}})
+			}
+			down = !down
 		default:
 			feeds = pickFeeds(rng, ivs, 1+rng.Intn(3))
 			steps = append(steps, tf.M{"e": "SetFeeds", "f": feeds})
